@@ -27,7 +27,7 @@ Proof.
   assert (Hmiss_ok : forall x, m = Some x -> a_dt x = DBool /\ a_shape x = [n]).
   { intros x Hx. destruct vals as [a|elems]; cbn [p_vals] in He.
     - inversion He; subst. cbn in Hm. exact Hm.
-    - destruct (serialize elems) as [[rows data]|]; [|discriminate]. inversion He; subst. cbn in Hm. exact Hm. }
+    - destruct (serialize (map upcast_varr elems)) as [[rows data]|]; [|discriminate]. inversion He; subst. cbn in Hm. exact Hm. }
   assert (Htail : (if ahas path_MISSING (prop_members v m d)
                    then (let! m0 := expect_array (prop_group v m d) path_MISSING in
                          let! _ := guard (Nat.eqb (ndim m0) 1) in
@@ -47,14 +47,15 @@ Proof.
     rewrite Hd, dtype_eqb_refl. cbn [guard rbind]. cbn [children prop_group] in Hhd. rewrite Hhd. cbn [negb guard rbind].
     cbn [option_eqb]. rewrite Nat.eqb_refl. cbn [guard rbind]. exact Htail.
   - (* variable length *)
-    destruct elems as [|e0 r]; [discriminate|].
+    destruct (map upcast_varr elems) as [|e0 r] eqn:Eup; [discriminate|].
     destruct (forallb (fun x => dtype_eqb (v_dt x) (v_dt e0)) r); [|discriminate].
     destruct (valid_prop_dtype (v_dt e0) && negb (String.eqb name "")); [|discriminate].
     inversion Hpm; subst pm; clear Hpm.
     destruct (serialize (e0 :: r)) as [[rows data]|] eqn:Hser; [|discriminate].
     inversion He; subst v m d; clear He.
     cbn [new_pm pm_dtype pm_varlength] in Hd, Hvl. rewrite Hvl.
-    destruct Hv as [Hlen _].
+    destruct Hv as [Hlen0 _].
+    assert (Hlen : length (e0 :: r) = n) by (rewrite <- Eup, map_length; exact Hlen0).
     pose proof (serialize_rows_count _ _ _ Hser) as Hcnt.
     destruct rows as [|row rows]; [cbn in Hcnt; discriminate|].
     assert (Hnd : Nat.leb 1 (ndim (rows_arr (row :: rows))) = true) by reflexivity.
